@@ -10,7 +10,7 @@ CONSTANTS
   GuardAlloc = TRUE
   PageSizes <- PS1
   MaxResp = 3
-  MaxCalls = 4
-  Families = {"single"}
-  Level = "export"
+  MaxCalls = 3
+  Families = {"upload"}
+  Level = "lite"
 INVARIANT Props
